@@ -141,11 +141,11 @@ theorem getAttrU_shaped (t : Ty) (raw : Payload) (n : String) (r : Value)
           obtain ⟨⟨⟨⟨⟨rfl, _⟩, _⟩, _⟩, _⟩, hz⟩ := hs
           cases hl : lookupKey n ks vs with
           | none =>
-            simp only [hl, Option.getD_none, Res.ok.injEq] at h
+            simp only [hl, Res.ok.injEq] at h
             subst h
             exact ⟨by simp [shapedV, shaped], hwa⟩
           | some p =>
-            simp only [hl, Option.getD_some, Res.ok.injEq] at h
+            simp only [hl, Res.ok.injEq] at h
             subst h
             exact ⟨find_lookup_shaped hz hf hl, hwa⟩
         | _ => simp at h
@@ -272,7 +272,7 @@ theorem unmark_shaped_parts {v : Value} (hs : shapedV v = true) :
   ⟨shaped_unmark1 hs, shaped_unmark1_notMarked hs, rfl⟩
 
 /-- the tail of `IndexStep.Apply` once the kind checks are passed -/
-theorem index_tail_shaped (v k v' : Value) (hs : shapedV v = true) (hkm : k.isMarked = false)
+theorem index_tail_shaped (v k v' : Value) (_hs : shapedV v = true) (hkm : k.isMarked = false)
     (helem : ∀ e, PathStep.elementType v.ty = .ok e → Ty.wf e = true)
     (hidx : ∀ r, indexU v.unmark k = .ok r → shapedV r = true ∧ Ty.wf r.ty = true)
     (h : (match v.hasIndex k with
